@@ -143,6 +143,7 @@ func checkC11(c *Ctx, r *Report) {
 	// a scope-less requirement is `[]` in both documents: the two libraries spell a nil list differently (null vs []) (shared with C04.c)
 	defer checkScopesNeverNil(c, r, "C11.e")
 	defer checkEmbeddingDecision(c, r, "C11.c")
+	defer checkSpecTypeSource(c, r, "C11.b")
 	w := c.W
 	r.NotDecided = append(r.NotDecided, "equality of the serialised documents (two third-party object models marshal them)", "value-level agreement of the type-string to schema mapping")
 	r.Assume = append(r.Assume, "functions are paired by name (plus the five renamed pairs listed in the checker); a new emitter function without a sibling is reported")
@@ -1246,4 +1247,59 @@ func (w *World) schemaKeywordWrites(fi *FuncInfo) map[string]string {
 		})
 	}
 	return out
+}
+
+// checkSpecTypeSource: both validation converters decide which keywords a rule may set by the
+// OpenAPI type of the *Go type* (swagtool.ToOpenApiType(fieldInterface)) - the same question,
+// asked the same way, in both dialects. Asking the schema under construction instead (its `type`
+// may be "string" for []byte or time.Time, or absent behind a $ref) makes the two documents apply
+// different keywords to the same field.
+func checkSpecTypeSource(c *Ctx, r *Report, clause string) {
+	w := c.W
+	specLits := map[string]bool{"\"string\"": true, "\"integer\"": true, "\"number\"": true, "\"boolean\"": true, "\"array\"": true, "\"object\"": true}
+	for _, fk := range []string{"generator/swagen/swagen30.BuildSchemaValidation", "generator/swagen/swagen31.BuildSchemaValidationV31"} {
+		fi := need(c, r, clause, fk)
+		if fi == nil {
+			continue
+		}
+		viol := ""
+		var sites []string
+		n := 0
+		for _, rf := range w.astRegion(fi) {
+			info := rf.Pkg.TypesInfo
+			ast.Inspect(rf.Decl, func(nd ast.Node) bool {
+				be, ok := nd.(*ast.BinaryExpr)
+				if !ok || (be.Op != token.EQL && be.Op != token.NEQ) {
+					return true
+				}
+				var subj ast.Expr
+				if bl, ok := ast.Unparen(be.Y).(*ast.BasicLit); ok && specLits[bl.Value] {
+					subj = be.X
+				} else if bl, ok := ast.Unparen(be.X).(*ast.BasicLit); ok && specLits[bl.Value] {
+					subj = be.Y
+				}
+				if subj == nil {
+					return true
+				}
+				if t := info.TypeOf(subj); t == nil || t.String() != "string" {
+					return true
+				}
+				var a *Atoms
+				w.withHost(fi.Key, func() { a = w.exprAtoms(rf, subj) })
+				if !a.hasCall("generator/swagen/swagtool.ToOpenApiType") && len(a.Fields) == 0 && len(a.Calls) == 0 {
+					return true // a plain string parameter compared with a literal elsewhere (rule names etc.)
+				}
+				n++
+				sites = append(sites, w.pos(be.Pos()))
+				if !a.hasCall("generator/swagen/swagtool.ToOpenApiType") || len(a.Fields) > 0 {
+					viol = fmt.Sprintf("%s: %s matches a validation rule against a type that is not (only) swagtool.ToOpenApiType(<Go type>) (%s): the other dialect asks the Go type, so the same field gets different keywords in the two documents", w.pos(be.Pos()), fk, a)
+				}
+				return true
+			})
+		}
+		if n < 3 {
+			viol = fmt.Sprintf("only %d comparisons of the spec type with a type literal found in %s (floor 3)", n, fk)
+		}
+		r.add(clause, "sibling", fk+":spec-type-source", "the type a rule is matched against is ToOpenApiType(Go type) in both dialects", []string{fk}, sites, viol)
+	}
 }
